@@ -184,8 +184,26 @@ def main():
     kf = json.load(open(os.path.join(VERIF, 'known_findings.json')))
     listed = [f for f in kf.get('findings', []) if f['property'] == pid]
     known_classes = {f['class'] for f in listed}
+    kf_status = []
+    if listed and impl_ok:
+        wcases = []
+        for f in listed:
+            wp = os.path.join(VERIF, f['witness'])
+            if os.path.exists(wp):
+                wcases.append(Case("kfw_" + f['class'], [l.rstrip('\n') for l in open(wp) if l.strip()], {'finding': f}))
+        if wcases:
+            run_cases(wcases, os.path.join(outdir, 'known'), with_model=False, timeout=120)
+            for wc in wcases:
+                try:
+                    wc.trace = parse_trace(wc.impl_path, wc.hist_path)
+                    still = props.witness_fails(pid, wc)
+                except Exception as ex:
+                    still = None
+                kf_status.append({'class': wc.meta['finding']['class'], 'witness': wc.meta['finding']['witness'], 'still_fails': still})
     for f in listed:
-        print("KNOWN-FINDING: property=%s %s [class %s]" % (pid, f['what'], f['class']))
+        st = [k for k in kf_status if k['class'] == f['class']]
+        note = '' if not st or st[0]['still_fails'] else ' (stored witness no longer fails on this tree)'
+        print("KNOWN-FINDING: property=%s %s [class %s]%s" % (pid, f['what'], f['class'], note))
 
     failures = results.get('failures', [])
     unknown = [f for f in failures if f.get('class') not in known_classes]
@@ -243,6 +261,7 @@ def main():
         'distribution': results.get('dist', {}),
         'known_finding_hits_this_run': len(known_hits),
         'known_finding_classes': sorted(known_classes),
+        'known_finding_witnesses': kf_status,
         'unproved': P.get('unproved', []),
         'generated_sites': len(genrep.get('sites', [])),
     }
